@@ -294,4 +294,31 @@ pub(crate) mod verif_h {
         kani::assume(b1 < b2);
         codec_roundtrip(&[(b1, Some(kani::any())), (b2, Some(kani::any()))]);
     }
+
+    /// H6 at the maximum size: a history with W + 1 = 11 versions (what remove_old_values keeps)
+    /// round-trips without losing a version. Needs CAP >= 11 (thorough tier).
+    #[kani::proof]
+    fn h6_codec_full11() {
+        let v: [u8; 11] = kani::any();
+        let base: u64 = kani::any();
+        kani::assume(base < LIM);
+        let mut pairs = [(0u64, None::<u8>); 11];
+        let mut i = 0;
+        while i < 11 {
+            pairs[i] = (base + i as u64, Some(v[i]));
+            i += 1;
+        }
+        let h = BlockHistoryCacheData::<u8>::verif_from(&pairs);
+        let bytes = h.encode_vec();
+        assert!(bytes.len() == 4 + 11 * 10);
+        let (g, off) = BlockHistoryCacheData::<u8>::decode(&bytes, 0).unwrap();
+        assert!(off == bytes.len());
+        assert!(g.cache.len == 11);
+        assert!(g.verif_at(0) == (base, Some(v[0])));
+        assert!(g.verif_at(10) == (base + 10, Some(v[10])));
+        kani::cover!(true);
+        core::mem::forget(bytes);
+        core::mem::forget(g);
+        core::mem::forget(h);
+    }
 }
